@@ -41,6 +41,12 @@ func main() {
 
 	err := parse(
 		func(p *Peg[uint32], out io.Writer) error {
+			if out == io.Writer(os.Stdout) {
+				// The parser itself goes to standard output: keep the dumps out of it.
+				stdout := os.Stdout
+				os.Stdout = os.Stderr
+				defer func() { os.Stdout = stdout }()
+			}
 			if *printFlag {
 				p.Print()
 			}
